@@ -27,7 +27,7 @@ theorem slideStep_catch_pop (fuel : Nat) (s : VM) (f : FUid) (h : HUid) (i : Ins
     (H : HeadAt s f h i x cfg hd) (hel : cfg.elements[hd.pos]! = .catchFail none) (hnm : NotMatchAt cfg (hd.pos + 1))
     (hcl : ((OMap.lookup (f, h) s.r.hx).getD {}).catchLabels.isEmpty = false) :
     ∃ s1 hg, slideStep fuel f h s = .ok (false, []) s1 ∧ s1.ixs = s.ixs.apply (.setPos f h (hd.pos + 1) none) hg ∧
-      s1.r.fx = s.r.fx ∧ s1.r.prog = s.r.prog ∧ s1.r.nextUid = s.r.nextUid ∧ s1.r.cleared = s.r.cleared := by
+      s1.r.fx = s.r.fx ∧ s1.r.prog = s.r.prog ∧ s1.r.nextUid = s.r.nextUid ∧ s1.r.cleared = s.r.cleared ∧ s1.r.queue = s.r.queue := by
   have hge : decide (hd.pos ≥ cfg.elements.size) = false := by simp; exact H.hlt
   have hin : decide (hd.status = HeadStatus.inactive) = false := by simp [H.hst]
   unfold slideStep
@@ -40,10 +40,11 @@ theorem slideStep_catch_pop (fuel : Nat) (s : VM) (f : FUid) (h : HUid) (i : Ins
   have e3 : t.r.prog = s.r.prog := by rw [← ht]
   have e4 : t.r.nextUid = s.r.nextUid := by rw [← ht]
   have e5 : t.r.cleared = s.r.cleared := by rw [← ht]
+  have e6 : t.r.queue = s.r.queue := by rw [← ht]
   have Ft : FlowAt t f i x cfg := { hi := by rw [e1]; exact H.hi, hx := by rw [e2]; exact H.hx, hc := by rw [e3]; exact H.hc }
   obtain ⟨hg, hset⟩ := setHeadPos_ok t f h i x cfg hd (hd.pos + 1) Ft H.hh (by omega) hnm
   rw [hset]
-  exact ⟨_, by rw [← e1]; exact hg, rfl, by simp only [e1], e2, e3, e4, e5⟩
+  exact ⟨_, by rw [← e1]; exact hg, rfl, by simp only [e1], e2, e3, e4, e5, e6⟩
 
 /-- `slide` stops on a `send` of an event that is not internal (the marker after the group) -/
 theorem slide_at_send (fuel : Nat) (s : VM) (f : FUid) (h : HUid) (i : Inst) (x : InstX) (cfg : FlowCfg) (hd : Head)
@@ -72,12 +73,12 @@ theorem group_exit (fuel : Nat) (s : VM) (f : FUid) (h : HUid) (i : Inst) (x : I
     (hp : PlainSpec spec n) (hargs : spec.args = []) (hint : internalEvents.contains n = false)
     (hcl : ((OMap.lookup (f, h) s.r.hx).getD {}).catchLabels.isEmpty = false) :
     ∃ s' i', advanceMember (fuel + 2) f h s = .ok [] s' ∧ FlowAt s' f i' x cfg ∧ hview i' = (hview i).map (setPosCore h (hd.pos + 2)) ∧
-      s'.r.cleared = s.r.cleared := by
+      s'.r.cleared = s.r.cleared ∧ s'.r.queue = s.r.queue := by
   have hnm1 : NotMatchAt cfg (hd.pos + 1) := notMatchAt_of cfg (hd.pos + 1) _ (by omega) hc1 rfl
   have hnm2 : NotMatchAt cfg (hd.pos + 2) := notMatchAt_of cfg (hd.pos + 2) _ hsz hc2 rfl
   obtain ⟨hg0, h0⟩ := setHeadPos_ok s f h i x cfg hd (hd.pos + 1) H.toFlowAt H.hh (by omega) hnm1
   have H0 := headAt_setPos s f h i x cfg hd (hd.pos + 1) H (by omega) (by omega) hg0
-  obtain ⟨s1, hg1, hstep1, hix1, hfx1, hprog1, _, hclr1⟩ := slideStep_catch_pop (fuel + 1) _ f h _ x cfg _ H0 hc1 hnm2 hcl
+  obtain ⟨s1, hg1, hstep1, hix1, hfx1, hprog1, _, hclr1, hq1⟩ := slideStep_catch_pop (fuel + 1) _ f h _ x cfg _ H0 hc1 hnm2 hcl
   have hi1 := findInst_setPos _ f h _ { hd with pos := hd.pos + 1, elem := none } (hd.pos + 1 + 1) none H0.hi H0.hh (by simp)
   have H1 : HeadAt s1 f h ((i.modifyHead h fun y => { y with pos := hd.pos + 1, elem := none }).modifyHead h
       fun y => { y with pos := hd.pos + 1 + 1, elem := none }) x cfg { hd with pos := hd.pos + 1 + 1, elem := none } :=
@@ -86,7 +87,7 @@ theorem group_exit (fuel : Nat) (s : VM) (f : FUid) (h : HUid) (i : Inst) (x : I
         { hd with pos := hd.pos + 1, elem := none } (fun y => { y with pos := hd.pos + 1 + 1, elem := none }) (fun _ => rfl) H0.hh,
       hlt := by simpa using hsz, hst := H.hst }
   have hsl := slide_at_send fuel s1 f h _ x cfg _ spec n H1 hc2 hp hargs hint
-  refine ⟨s1, _, ?_, H1.toFlowAt, ?_, hclr1⟩
+  refine ⟨s1, _, ?_, H1.toFlowAt, ?_, hclr1, hq1⟩
   · simp only [advanceMember, bind, EStateM.bind, getHead?, getIx, get, getThe, MonadStateOf.get, EStateM.get, pure, EStateM.pure,
       H.hi, Option.bind, H.hh, h0, slide, slideLoop, hstep1, Bool.false_eq_true, if_false, List.nil_append]
     have := hsl
